@@ -101,6 +101,7 @@ def check(ctx):
     d6_helpers(ctx, idx, fam)
     d6_domains(ctx, idx, fam)
     d6_range(ctx, idx, fam)
+    d6_vendored(ctx, idx, fam)
     d7_answers(ctx, idx, fam)
     d7_revalidate(ctx, idx, fam)
 
@@ -2060,6 +2061,121 @@ def d6_range(ctx, idx, fam):
             r.undecided('Range.__call__: result', 'does not return the validated value unchanged', fi.loc)
 
 
+def d6_vendored(ctx, idx, fam):
+    """The other vendored validators the library's schemas instantiate (NotIn, Length, Coerce, truth): each keeps its refusal."""
+    r = ctx.rule('D6.VENDORED', 'the vendored validators used by the schemas (NotIn, Length, Coerce, truth) refuse what they must refuse',
+                 floor=6)
+    with r:
+        VQ = 'voluptuous.validators.'
+        # NotIn: raises when v in container (or when membership cannot be tested)
+        fi = idx.func(VQ + 'NotIn.__call__')
+        self_, v = fi.params
+        paths = nf.decision_paths(fi.node.body)
+        rs = [x for x in lib.raises_of(fi.node) if x.exc is not None]
+        checks = [n for n in walk_own(fi.node) if isinstance(n, ast.Compare) and len(n.ops) == 1 and isinstance(n.ops[0], (ast.In, ast.NotIn))
+                  and isinstance(n.left, ast.Name) and n.left.id == v]
+        good = None
+        for x in rs:
+            gs = [lib.inline_locals(g, fi.node) for g in guards_of(x, fi.node)]
+            for g in gs:
+                res = nf.classify(['%s in %s.container' % (v, self_)], g)
+                if res == nf.MATCH:
+                    good = ('ok', x)
+                elif isinstance(res, tuple) and good is None:
+                    good = (res[1], x)
+            # the flag variable form: check = v in container (True on TypeError); if check: raise
+            if good is None and gs and all(isinstance(g, ast.Name) for g in gs):
+                flag = gs[0].id
+                vals = lib.assigned_value(fi.node, flag)
+                if any(nf.classify('%s in %s.container' % (v, self_), val) == nf.MATCH for val in vals):
+                    good = ('ok', x)
+                elif any(isinstance(nf.classify('%s in %s.container' % (v, self_), val), tuple) for val in vals):
+                    good = ('the membership test is inverted or changed', x)
+        if good is None:
+            if rs or not checks:
+                r.undecided('voluptuous NotIn.__call__', 'refusal not recognised', fi.loc)
+            else:
+                r.violation('voluptuous NotIn.__call__', 'NotIn no longer raises for a value that is in its container: Positive(Number) = '
+                            'All(Number, Range(0, inf), NotIn([0])) accepts 0 -- RandomFunction(amplitude=0), SumGrader(infty_val=0) are '
+                            'constructed instead of being refused', fi.loc, expected='if v in self.container: raise NotInInvalid(...)')
+        elif good[0] == 'ok':
+            cls = nf.exc_class_name(good[1].exc)
+            r.check(lib.exc_is_subclass(idx, fi.module, cls, 'Invalid'), 'voluptuous NotIn.__call__', 'raises %s when v in container' % cls,
+                    'NotIn refuses with %s, which is not a voluptuous Invalid: the schema engine does not turn it into a validation error' % cls,
+                    lib.loc(fi, good[1]))
+        else:
+            r.violation('voluptuous NotIn.__call__', 'the refusal of NotIn changed: %s' % good[0], lib.loc(fi, good[1]),
+                        expected='%s in %s.container' % (v, self_))
+        rets = lib.returns_of(fi.node)
+        r.check(bool(rets) and all(isinstance(x.value, ast.Name) and x.value.id == v for x in rets), 'voluptuous NotIn.__call__ [result]',
+                'returns the value unchanged', 'NotIn does not return the validated value unchanged', fi.loc)
+        # Length: both bounds, strictness
+        fi = idx.func(VQ + 'Length.__call__')
+        self_, v = fi.params
+        want = {'min': 'len(%s) < %s.min' % (v, self_), 'max': 'len(%s) > %s.max' % (v, self_)}
+        found = {}
+        for x in lib.raises_of(fi.node):
+            if x.exc is None:
+                continue
+            gs = guards_of(x, fi.node)
+            for key, pt in want.items():
+                guarded = any(nf.classify('%s.%s is not None' % (self_, key), g) == nf.MATCH for g in gs)
+                for g in gs:
+                    res = nf.classify(pt, g)
+                    if res == nf.MATCH and guarded:
+                        found[key] = ('ok', x)
+                    elif isinstance(res, tuple) and guarded and key not in found:
+                        found[key] = (res[1], x)
+        leftover = [x for x in lib.raises_of(fi.node) if x.exc is not None and not any(f[1] is x for f in found.values())]
+        for key, pt in want.items():
+            construct = 'voluptuous Length.__call__ [%s]' % key
+            hit = found.get(key)
+            if hit is None:
+                if leftover:
+                    r.undecided(construct, 'refusal not recognised', fi.loc)
+                else:
+                    r.violation(construct, 'Length no longer refuses values %s than its %s: %s' % (
+                        'shorter' if key == 'min' else 'longer', key,
+                        'an empty variables/answers list passes ListOfType, whitelist=[None, None] passes' if key == 'min'
+                        else 'NumericalGrader(variables=[...]) and whitelist=[None, None] are accepted'), fi.loc, expected=pt)
+            elif hit[0] == 'ok':
+                r.ok(construct, pt, lib.loc(fi, hit[1]))
+            else:
+                r.violation(construct, 'the %s-length test changed: %s' % (key, hit[0]), lib.loc(fi, hit[1]), expected=pt)
+        # Coerce: returns type(v); conversion errors become CoerceInvalid
+        fi = idx.func(VQ + 'Coerce.__call__')
+        self_, v = fi.params
+        rets = lib.returns_of(fi.node)
+        okc = len(rets) == 1 and nf.classify('%s.type(%s)' % (self_, v), rets[0].value) == nf.MATCH
+        tr = lib.enclosing_try(rets[0]) if rets else None
+        translated = tr is not None and any({'ValueError', 'TypeError'} <= set(lib.handler_class_names(h)) and any(
+            isinstance(x, ast.Raise) and x.exc is not None and lib.exc_is_subclass(idx, fi.module, nf.exc_class_name(x.exc), 'Invalid')
+            for s_ in h.body for x in ast.walk(s_)) for h in tr.handlers)
+        if okc and translated:
+            r.ok('voluptuous Coerce.__call__', 'returns type(v); ValueError/TypeError become CoerceInvalid', fi.loc)
+        elif okc or translated:
+            r.undecided('voluptuous Coerce.__call__', 'shape not recognised', fi.loc)
+        else:
+            r.undecided('voluptuous Coerce.__call__', 'not recognised', fi.loc)
+        # truth: the wrapped predicate decides; a falsy result raises
+        fi = idx.func(VQ + 'truth.<locals>.check')
+        v = fi.params[0]
+        paths = nf.decision_paths(fi.node.body)
+        rz = [p_ for p_ in paths if p_.leaf.kind == 'raise']
+        rt = [p_ for p_ in paths if p_.leaf.kind == 'ret']
+        okt = len(rz) == 1 and len(rt) == 1 and len(rz[0].guards) == 1 and nf.classify('not f(%s)' % v, rz[0].guards[0]) == nf.MATCH \
+            and isinstance(rt[0].leaf.expr, ast.Name) and rt[0].leaf.expr.id == v
+        if okt:
+            r.ok('voluptuous truth', 'raises when the predicate is falsy, returns the value otherwise', fi.loc)
+        elif len(rz) == 1 and len(rz[0].guards) == 1 and isinstance(nf.classify('not f(%s)' % v, rz[0].guards[0]), tuple):
+            r.violation('voluptuous truth', 'the truth decorator refuses on `%s`: is_callable (attempt_based_credit, comparers, user '
+                        'functions) accepts non-callables / refuses callables' % short(rz[0].guards[0]), fi.loc, expected='if not f(v): raise')
+        elif not rz and len(paths) == 1:
+            r.violation('voluptuous truth', 'the truth decorator never raises: is_callable accepts everything', fi.loc)
+        else:
+            r.undecided('voluptuous truth', 'not recognised', fi.loc)
+
+
 # ----------------------------------------------------------------------------- D7
 ANSWER_SPEC = {'grade_decimal': (1, ALL(T('Number'), RANGE(0, 1))), 'msg': ('', T('str')),
                'ok': ('computed', ANY(K('computed'), K(True), K(False), K('partial')))}
@@ -2531,6 +2647,13 @@ MUTANTS = [
     Mutant('F10-revert-empty-tuple-refused', LG, "        elif not answers_tuple:\n            # An empty tuple is the validated form of an empty list (see above)\n            return tuple()\n", "", 'D7'),
     Mutant('equal-length-check-before-empty-return', LG, "        # Turn answers_tuple into a tuple if it isn't already\n        if isinstance(answers_tuple, list):",
            "        if len(answers_tuple[0]) == 0:\n            pass\n        if isinstance(answers_tuple, list):", 'D7'),
+    Mutant('sweep-notin-never-raises', VOL, "        if check:\n            raise NotInInvalid(self.msg or 'value is not allowed')\n        return v\n\n    def __repr__(self):\n        return 'NotIn(%s)'",
+           "        if check:\n            pass\n        return v\n\n    def __repr__(self):\n        return 'NotIn(%s)'", 'D6'),
+    Mutant('notin-inverted', VOL, "            check = v in self.container\n        except TypeError:\n            check = True\n        if check:\n            raise NotInInvalid",
+           "            check = v not in self.container\n        except TypeError:\n            check = True\n        if check:\n            raise NotInInvalid", 'D6'),
+    Mutant('length-min-strictness', VOL, "if self.min is not None and len(v) < self.min:", "if self.min is not None and len(v) <= self.min:", 'D6'),
+    Mutant('length-max-check-removed', VOL, "        if self.max is not None and len(v) > self.max:\n            raise LengthInvalid(\n                self.msg or 'length of value must be at most %s' % self.max)\n", "", 'D6'),
+    Mutant('truth-never-raises', VOL, "        if not t:\n            raise ValueError\n        return v", "        return v", 'D6'),
     Mutant('grade-decimal-range', BASE, "All(numbers.Number, Range(0, 1)),", "All(numbers.Number, Range(0, 2)),", 'D7'),
     Mutant('answer-grade-default', BASE, "Required('grade_decimal', default=1)", "Required('grade_decimal', default=0)", 'D7'),
     Mutant('answer-ok-default', BASE, "Required('ok', default='computed')", "Required('ok', default=True)", 'D7'),
